@@ -18,6 +18,33 @@ import (
 
 const hookPath = "github.com/olric-data/olric/internal/verifhook"
 
+// callsDirectly: does the statement (not counting nested blocks) contain a call of a function or
+// method named callee?
+func callsDirectly(st ast.Stmt, callee string) bool {
+	found := false
+	ast.Inspect(st, func(node ast.Node) bool {
+		if _, ok := node.(*ast.BlockStmt); ok {
+			return false
+		}
+		call, ok := node.(*ast.CallExpr)
+		if !ok {
+			return true
+		}
+		switch fun := call.Fun.(type) {
+		case *ast.SelectorExpr:
+			if fun.Sel.Name == callee {
+				found = true
+			}
+		case *ast.Ident:
+			if fun.Name == callee {
+				found = true
+			}
+		}
+		return true
+	})
+	return found
+}
+
 func main() {
 	if len(os.Args) < 3 {
 		fmt.Fprintln(os.Stderr, "usage: clockrewrite in.go out.go")
@@ -80,7 +107,7 @@ func main() {
 	})
 	// gate functions: `if verifhook.Skip("<name>") { return }` at the top of listed result-less functions
 	skip := map[string]bool{}
-	for i := 3; i+1 < len(os.Args); i += 2 {
+	for i := 3; i+1 < len(os.Args); i++ {
 		if os.Args[i] == "-skip" {
 			skip[os.Args[i+1]] = true
 		}
@@ -97,6 +124,38 @@ func main() {
 		}
 		fd.Body.List = append([]ast.Stmt{gate}, fd.Body.List...)
 		n++
+	}
+	// yield points: `verifhook.At("<name>")` before every statement of function <fn> that calls <callee>
+	// (-point <fn> <callee> <name>); the statement is looked for in every block of the function
+	for i := 3; i+3 < len(os.Args); i++ {
+		if os.Args[i] != "-point" {
+			continue
+		}
+		fn, callee, name := os.Args[i+1], os.Args[i+2], os.Args[i+3]
+		for _, d := range f.Decls {
+			fd, ok := d.(*ast.FuncDecl)
+			if !ok || fd.Body == nil || fd.Name.Name != fn {
+				continue
+			}
+			ast.Inspect(fd.Body, func(node ast.Node) bool {
+				blk, ok := node.(*ast.BlockStmt)
+				if !ok {
+					return true
+				}
+				var out []ast.Stmt
+				for _, st := range blk.List {
+					if callsDirectly(st, callee) {
+						out = append(out, &ast.ExprStmt{X: &ast.CallExpr{
+							Fun:  &ast.SelectorExpr{X: ast.NewIdent("verifhook"), Sel: ast.NewIdent("At")},
+							Args: []ast.Expr{&ast.BasicLit{Kind: token.STRING, Value: strconv.Quote(name)}}}})
+						n++
+					}
+					out = append(out, st)
+				}
+				blk.List = out
+				return true
+			})
+		}
 	}
 	if n > 0 {
 		// add the import
